@@ -45,6 +45,9 @@ CORPUS = [
     "(*@KEY@:DESCRIPTION*)(*@KEY@:END_DESCRIPTION*)",
     "(*@KEY@:DESCRIPTION*) *) x (*@KEY@:END_DESCRIPTION*) y",
     "a (*@KEY@:DESCRIPTION*) b (*@KEY@:DESCRIPTION*) c (*@KEY@:END_DESCRIPTION*) d (*@KEY@:END_DESCRIPTION*) e",
+    "(*@KEY@:DESCRIPTION*) a (*@KEY@:END_DESCRIPTION*) x := ; (*@KEY@:DESCRIPTION*) b (*@KEY@:END_DESCRIPTION*)",
+    "(*@KEY@:DESCRIPTION*) a (*@KEY@:END_DESCRIPTION*)\nx ? y\n(*@KEY@:DESCRIPTION*)\n(* b *)\n(*@KEY@:END_DESCRIPTION*)\nz",
+    "x (*@KEY@:END_DESCRIPTION*) y (*@KEY@:DESCRIPTION*) é (*@KEY@:END_DESCRIPTION*) z (*@KEY@:DESCRIPTION*) w",
     "T#1h_30m", "t#1.5s", "TOD#12:00:00", "D#2020-01-01", "DT#2020-01-01-12:00:00.5", "INT#-5", "16#FF_FF",
     "2#1010_1", "8#17", "%QX1.2.3", "%MW10", "%I*", "%q*", "BOOL#1", "x.y[1,2].z", "a**b", "a<=b>=c<>d",
     "VAR_IN_OUT", "var_in_out", "Var_In_Out x", "FUNCTION_BLOCKX", "END_FUNCTION_BLOCK", "TOD", "DT", "DATE_AND_TIME",
